@@ -19,6 +19,7 @@ From V Require Import Spec.SpSpec.
 From V Require Import Gen.Nodes Gen.TableRows Spec.Valid.
 From V Require Import Gen.CmGen Model.Cm Spec.CmSpec.
 From V Require Import Spec.SourcePos Spec.SourcePosKnown.
+From V Require Import Spec.Doc.
 Extraction Language OCaml.
 Set Extraction KeepSingleton.
 
@@ -198,4 +199,12 @@ Extraction "model.ml"
   SourcePos.sp_nested
   SourcePos.sp_slice_ok
   SourcePosKnown.classify
+  Doc.canonical
+  Doc.write
+  Doc.ref_html
+  Doc.tree_of
+  Doc.norm
+  Doc.std_opts
+  Doc.mkDoc
+  Doc.wf_doc
 .
